@@ -100,4 +100,16 @@ def shift2 [DecidableEq R] (s1 a1 s2 a2 : R) (p : List (List R)) : List (List R)
   let o3 := if s2 ≠ 0 ∧ ncol > 1 then o2.map (shift0 s2) else o2
   if a2 ≠ 1 ∧ ncol > 1 then o3.map (scale a2) else o3
 
+/-! ### vector polynomials on array arguments (`XYZPolyType.__call__`, blocks.py:1483-1510)
+
+  The argument array of any shape is taken in row-major order (`ts`); each component polynomial is evaluated
+  pointwise, the three results are reshaped to columns, `hstack`ed and reshaped to `o_shape + (3,)`:
+  in row-major order that is the three components of the first point, then of the second, ... -/
+def xyzEvalFlat (px py pz : List R) (ts : List R) : List R :=
+  (ts.map (fun t => [eval px t, eval py t, eval pz t])).flatten
+
+/-- `derivative_eval` of a vector polynomial on an array argument: the same assembly applied to the derivative polynomials -/
+def xyzDerEvalFlat (n : Nat) (px py pz : List R) (ts : List R) : List R :=
+  xyzEvalFlat (derN n px) (derN n py) (derN n pz) ts
+
 end Sarpy.Spec.Poly
